@@ -271,7 +271,8 @@ variable (ff : UInt64 → Bytes) (pf : Bytes → Option UInt64)
 
 mutual
   /-- side conditions under which the printed tokens of a tree render it, i.e. the tree is one the
-      parser returns: literals in range and consistent, map keys strictly ascending and re-quotable,
+      parser returns: literals in range and consistent, map keys strictly ascending (every key is
+      re-quotable: `Lemmas.ParserQuote.requote`),
       float literals reproduced by the (parameter) float functions -/
   def Canon : Expr → Prop
     | .null _ => True
@@ -293,7 +294,7 @@ mutual
     | .cons e r => Canon e ∧ CanonL r
   def CanonM : MapItems → Prop
     | .nil => True
-    | .cons k e r => Quote.unquoteString (quoteString k) = some k ∧ Canon e ∧ CanonM r
+    | .cons _ e r => Canon e ∧ CanonM r
   def CanonAL : AccessList → Prop
     | .nil => True
     | .cons a r => CanonA a ∧ CanonAL r
